@@ -7,6 +7,34 @@ import "strings"
 // Any represent any type
 type Any interface{}
 
+// formatStringJSON return s as a JSON string literal. Quotation mark, reverse
+// solidus and control characters (U+0000 - U+001F) are escaped (RFC 8259).
+// All other bytes are copied as they are.
 func formatStringJSON(s string) string {
-	return "\"" + strings.Replace(s, "\"", "\\\"", -1) + "\""
+	const hex = "0123456789abcdef"
+	var b strings.Builder
+	b.Grow(len(s) + 2)
+	b.WriteByte('"')
+	for i := 0; i < len(s); i++ {
+		c := s[i]
+		switch {
+		case c == '"' || c == '\\':
+			b.WriteByte('\\')
+			b.WriteByte(c)
+		case c == '\n':
+			b.WriteString("\\n")
+		case c == '\r':
+			b.WriteString("\\r")
+		case c == '\t':
+			b.WriteString("\\t")
+		case c < 0x20:
+			b.WriteString("\\u00")
+			b.WriteByte(hex[c>>4])
+			b.WriteByte(hex[c&0x0f])
+		default:
+			b.WriteByte(c)
+		}
+	}
+	b.WriteByte('"')
+	return b.String()
 }
